@@ -326,3 +326,44 @@ def std_shrink(model, prop, failure, tries=25):
     out["replay"] = {"model": model.name, "scenario": sc, "choices": choices}
     out["msg"] = msg
     return out
+
+
+# ---- the layer below: Signal.then / go / wait / remove_then are atomic in the models of Lock, Queue and composites -----------
+
+def m1_layer_jobs(prop, tier, seed, n_quick=8, n_thorough=40):
+    """the M1 exploration (C01/C02's subject) run for a property of a layer above, so that a change which breaks the atomicity
+    of the Signal operations is reported, with a failing schedule, for that property too"""
+    from . import p_m1
+    jobs = []
+    n = n_quick if tier == "quick" else n_thorough
+    for i, inner in enumerate(("C02", "C01")):
+        for j in p_m1.make_jobs(inner, tier, seed)[: n // 2]:
+            jobs.append({"kind": "layer", "prop": prop, "inner": dict(j, prop=inner)})
+    return jobs
+
+
+def run_m1_layer(job, assumes):
+    from . import p_m1
+    res = p_m1.run_job(job["inner"])
+    if "infra_error" in res:
+        return res
+    prop = job["prop"]
+    for f in res.get("mon_fail", []):
+        f["msg"] = "%s: Signal.then/go/wait/remove_then are not atomic with respect to each other, which %s assumes (%s)" % (prop, assumes, f["msg"])
+        f["replay"] = {"model": "m1-layer", "inner": f.get("replay"), "inner_prop": job["inner"].get("prop", "C02")}
+    for f in res.get("corr_fail", []):
+        f["msg"] = "layer M1 (atomicity of then/go/wait/remove_then): " + f["msg"]
+        f["replay"] = {"model": "m1-layer", "inner": f.get("replay"), "inner_prop": job["inner"].get("prop", "C02")}
+    res["known"] = []
+    return res
+
+
+def m1_layer_replay(job):
+    """replay / shrink of a failure found by a layer job; None if the job is not one"""
+    rp0 = (job.get("replay") or {}).get("replay") or job.get("replay") or (job.get("failure") or {}).get("replay") or {}
+    if rp0.get("model") != "m1-layer":
+        return None
+    from . import p_m1
+    if job["kind"] == "shrink":
+        return {"failure": job["failure"]}
+    return p_m1.run_job({"kind": "replay", "prop": rp0.get("inner_prop", "C02"), "replay": rp0.get("inner") or {}})
